@@ -146,3 +146,11 @@ def c13(tier, seed):
 
 
 CHECKS.update({"C13": c13})
+
+
+def c14(tier, seed):
+    import c14 as m
+    return m.run(tier, seed)
+
+
+CHECKS.update({"C14": c14})
